@@ -34,6 +34,15 @@ pub trait B: Value<Transformed: PartialEq> + Clone + 'static {
     fn mentions_zst() -> bool {
         false
     }
+    /// the value (or, for a list, an element) needs more than the 16-byte
+    /// alignment the ABI guarantees for stack frames
+    fn over_aligned() -> bool {
+        std::mem::align_of::<<Self as Value>::Transformed>() > 16
+    }
+    /// alignment of the transformed value (for a list: of its elements)
+    fn max_align() -> usize {
+        std::mem::align_of::<<Self as Value>::Transformed>()
+    }
     fn edges(t: Tier) -> Vec<Self>;
     fn show(&self) -> String;
     fn lit(&self) -> Option<String>;
@@ -504,6 +513,34 @@ impl B for Val<host::K> {
     }
 }
 
+macro_rules! aligned_leaf {
+    ($t:ident, $roto:literal, $mk:literal, $class:literal) => {
+        impl B for Val<crate::align::$t> {
+            fn roto() -> String {
+                $roto.into()
+            }
+            fn id() -> String {
+                $roto.into()
+            }
+            fn class() -> String {
+                $class.into()
+            }
+            fn edges(_: Tier) -> Vec<Self> {
+                [0u64, 7, 0x0102030405060708, u64::MAX].into_iter().map(|p| Val(crate::align::$t(p))).collect()
+            }
+            fn show(&self) -> String {
+                format!("{}({})", $roto, self.0.0)
+            }
+            fn lit(&self) -> Option<String> {
+                Some(format!("{}({})", $mk, self.0.0.lit()?))
+            }
+        }
+    };
+}
+aligned_leaf!(A16, "A16", "mka16", "align16");
+aligned_leaf!(A32, "A32", "mka32", "align32");
+aligned_leaf!(A64, "A64", "mka64", "align64");
+
 // ------------------------------------------------------------------ constructors
 
 impl<P: B> B for Option<P> {
@@ -674,6 +711,12 @@ impl<P: B> B for List<P> {
     }
     fn mentions_zst() -> bool {
         P::mentions_zst()
+    }
+    fn over_aligned() -> bool {
+        P::over_aligned()
+    }
+    fn max_align() -> usize {
+        P::max_align()
     }
     fn edges(t: Tier) -> Vec<Self> {
         let e = P::edges(t);
